@@ -1,5 +1,7 @@
 from collections import OrderedDict
 import copy
+import hashlib
+import pathlib
 import warnings
 
 import afmformats
@@ -22,6 +24,28 @@ def same_training_set(ts1, ts2):
         return False
     else:
         return ts1 == ts2
+
+
+def training_set_state(training_set):
+    """Current contents of a training set (for caching the rating)
+
+    A tuple (X, y) is copied, because the caller may modify the arrays
+    later. A training set directory is identified by its path and a
+    digest of its files, because the files may change on disk.
+    """
+    if isinstance(training_set, tuple):
+        return copy.deepcopy(training_set)
+    try:
+        path = pathlib.Path(training_set)
+        if path.is_dir():
+            digest = hashlib.md5()
+            for pp in sorted(path.glob("*.txt")):
+                digest.update(pp.name.encode())
+                digest.update(pp.read_bytes())
+            return [str(path), digest.hexdigest()]
+    except (TypeError, OSError):
+        pass
+    return training_set
 
 
 class Indentation(afmformats.AFMForceDistance):
@@ -389,12 +413,13 @@ class Indentation(afmformats.AFMForceDistance):
             curhash = self.fit_properties["hash"]
         else:
             curhash = "none"
+        ts_state = training_set_state(training_set)
         if regressor.lower() == "none":
             rt = -1
         elif (self._rating is None or
               self._rating[0] != curhash or
               self._rating[1] != regressor or
-              not same_training_set(self._rating[2], training_set) or
+              not same_training_set(self._rating[2], ts_state) or
               self._rating[3] != names or
               self._rating[4] != lda):
             # Perform rating
@@ -403,7 +428,9 @@ class Indentation(afmformats.AFMForceDistance):
                               names=names,
                               lda=lda)
             rt = rater.rate(datasets=self)[0]
-            self._rating = (curhash, regressor, training_set, names, lda, rt)
+            # (remember values, the caller may modify the objects later)
+            self._rating = (curhash, regressor, ts_state,
+                            copy.deepcopy(names), lda, rt)
         else:
             # Use cached rating
             rt = self._rating[-1]
